@@ -138,20 +138,50 @@ Definition only_named (prev ob : uobs) (keys : list (N * N * N)) : bool :=
   forallb (fun p => existsb (fun k => bool_decide (k = fst p)) keys ||
                     (bget (list_to_map (uo_bal ob)) (fst p) =? bget (list_to_map (uo_bal prev)) (fst p))) (uo_bal prev ++ uo_bal ob).
 
-Fixpoint p_run (me : N) (prev : uobs) (os : list uop) (steps : list (option err * option (N * N * N) * uobs)) : bool :=
+(* a transfer names the sender's and the recipient's token balance and, when a fee is due, the two balances of the fee
+   leg; the fee is the one C19 defines, computed from the configuration the history has put in force (tracked by the
+   model, whose agreement with the implementation is what [corr] checks) *)
+Definition transfer_moves (env : tenv) (st : ustate) (s r : N) (a : Z) : option (list (N * N * N * Z)) :=
+  let ts := TS ∅ (us_fee st) (us_feeaddr st) (us_rates st) 0 in
+  match calc_transfer_fee env ts a s r with
+  | Ok (f, c) =>
+    if f <=? 0 then Some [(tok s, - a); (tok r, a)]
+    else match us_feeaddr st with
+         | Some fa => let fk x := if N.eqb (f_cur (us_fee st)) (e_sym env) then tok x else allowed x c in
+                      Some [(tok s, - a); (tok r, a); (fk s, - f); (fk fa, f)]
+         | None => None
+         end
+  | Err _ => None
+  end.
+
+Fixpoint p_run (env : uenv) (st : ustate) (prev : uobs) (os : list uop) (steps : list (option err * option (N * N * N) * uobs)) : bool :=
+  let me := ue_me env in
   match os, steps with
   | o :: r, (e, ev, ob) :: t =>
     forallb (fun p => 0 <=? snd p) (uo_bal ob) &&                      (* no balance negative *)
     (o_units me ob =? uo_emission ob) &&                              (* units = recorded total emission *)
     (match e with Some EPanic => false | Some _ => same_obs prev ob     (* a failed operation changes nothing *)
-     | None => match named me prev o with Some ks => only_named prev ob ks | None => true end &&   (* exactly the named balances *)
-               match moves me prev o with Some mv => exact_moves prev ob mv | None => true end end) &&   (* by exactly the amounts *)
-    p_run me ob r t
+     | None =>
+       match o with
+       | UTok (OTransfer s rc a) =>
+         match transfer_moves (ue_tenv env) st s rc a with
+         | Some mv => only_named prev ob (List.map fst mv) && exact_moves prev ob mv
+         | None => false                                              (* no fee can be computed or paid: it must not succeed *)
+         end
+       | _ =>
+         match named me prev o with Some ks => only_named prev ob ks | None => true end &&   (* exactly the named balances *)
+         match moves me prev o with Some mv => exact_moves prev ob mv | None => true end     (* by exactly the amounts *)
+       end
+     end) &&
+    p_run env (fst (fst (u_step env st o))) ob r t
   | _, _ => true
   end.
 
 Definition holds (c : case) : bool :=
-  match c with UCase me _ _ _ _ _ ops steps => p_run me (UObs [] 0 [] [] [] []) ops steps end.
+  match c with
+  | UCase me admin iss fs fas uids ops steps =>
+    p_run (UEnv me admin (TEnv me iss fs fas uids)) us0 (UObs [] 0 [] [] [] []) ops steps
+  end.
 
 Definition opclass (o : uop) : N :=
   match o with UTok _ => 1 | UBurn _ _ => 2 | UEmitG _ _ _ _ => 2 | ULock _ => 4 | UCC _ => 8 | USwap _ => 16 | UMSwap _ => 32 | UForce _ _ _ _ _ _ => 64 end.
